@@ -44,16 +44,16 @@ theorem site_tags_agree : siteTagsAgree = true := by decide
 
 /-! ### Part 2 — the libraries -/
 
-def dangerous : List Cap := [.readFile, .net, .exec]
+open Arrai.C18.Spec
 
 set_option maxRecDepth 100000 in
-/-- no file-reading, network or command-execution capability is reachable from the safe library —
-through its members, the closures of the wrapper script, their environments, or //std.safe -/
-theorem safe_is_safe : ∀ c ∈ safeLib.reach, c ∉ dangerous := by decide
-
-set_option maxRecDepth 100000 in
-/-- the safe library stays within the capabilities that holding the evaluator stands for -/
+/-- the safe library — its members, the closures of the wrapper script, their environments, //std.safe —
+stays within the capabilities that holding the evaluator stands for (decided over the whole table) -/
 theorem safe_within_safeCaps : safeLib.reach ⊆ safeCaps := by decide
+
+/-- no file-reading, network or command-execution capability is reachable from the safe library -/
+theorem safe_is_safe : ∀ c ∈ safeLib.reach, c ∉ dangerous :=
+  fun c hc => (by decide : ∀ c ∈ safeCaps, c ∉ dangerous) c (safe_within_safeCaps hc)
 
 set_option maxRecDepth 100000 in
 /-- the tags are not vacuous: the full library does reach all three -/
@@ -71,9 +71,14 @@ every fuel and calling context: the value returned by sandboxed evaluation reach
 in `C`, and every effect performed on the way exercises a capability in `C`. -/
 theorem confinement (fs : List (String × File)) (ec : EvalConfig) (C : List Cap)
     (hC : cfgCaps (world fs) ec ⊆ C) (a : Ast) (ha : a.isSource = true) (fuel : Nat) (c : Ctx) :
-    (∀ v, (sandboxEval (world fs) fuel c ec a).1 = some v → v.reach ⊆ C) ∧
-    (∀ cap arg, Eff.did cap arg ∈ (sandboxEval (world fs) fuel c ec a).2 → cap ∈ C) :=
+    Spec.Confined C (sandboxEval (world fs) fuel c ec a) :=
   confinement_general (world fs) rfl safe_within_safeCaps ec C hC a ha fuel c
+
+/-- the hypotheses of `confinement` are satisfiable by non-trivial values: a configuration handing over
+//os.file, the escape attempt of the original probe as source -/
+example : cfgCaps (world []) ⟨some (.cons "os" (.cons "file" (.nat ["file"] .readFile .nil) .nil) .nil), .nil⟩
+      ⊆ [.readFile] ∧
+    Ast.isSource (.app (.dot (.pkg "eval") "value") (.quote (.dot (.pkg "os") "file"))) = true := by decide
 
 /-- //eval.eval (empty configuration): nothing dangerous is reachable from the result and no file is
 read, no request sent, no command run — whatever the source does -/
